@@ -351,7 +351,13 @@ class Parser:
         for n, code in enumerate(mac.args):
             arg_extr = arg = []
             delim = False
-            tok = buf.skip_space()
+            # like buf.skip_space(), but remember skipped language switches
+            lang_toks = []
+            tok = buf.cur()
+            while buf.is_space(tok):
+                if type(tok) is defs.LanguageToken:
+                    lang_toks.append(tok)
+                tok = buf.next()
             pos_last = pos      # position of macro or of previous argument
             if tok:
                 pos = tok.pos
@@ -359,11 +365,16 @@ class Parser:
                 if tok and tok.txt == '*':
                     arg_extr = arg = [tok]
                     buf.next()
+                else:
+                    # NB: an absent argument must not swallow a language
+                    # switch, e.g. the end of the argument of \foreignlanguage
+                    buf.back(lang_toks)
             elif code == 'O':
                 if tok and tok.txt == '[':
                     delim = True
                     arg_extr = arg = self.arg_buffer(buf, pos, end=']').all()
                 else:
+                    buf.back(lang_toks)
                     if n < len(mac.defaults):
                         # NB: do not use positions from macro definition
                         arg = [copy.copy(t) for t in mac.defaults[n]]
